@@ -108,7 +108,14 @@ def strip_parens(t):
 def esc(s): return s.replace('\\', '\\\\').replace("'", "\\'")
 def plit(l):
     k, v = l
-    if k == 'num': return str(v) if isinstance(v, int) else repr(float(v))
+    if k == 'num':
+        if isinstance(v, int): return str(v)
+        r = repr(float(v))
+        if 'e' in r:                       # the grammar has no exponent notation: positional digits of the shortest repr
+            import decimal
+            r = format(decimal.Decimal(r), 'f')
+            if '.' not in r: r += '.0'
+        return r
     if k == 'str': return "'" + esc(v) + "'"
     if k == 'ts': return "t'" + v + "'"
     if k == 'hex': return "h'" + v + "'"
